@@ -315,6 +315,12 @@ def cond_values(nodes) -> List[Tuple[str, ast.AST, ast.AST, ast.AST, ast.AST]]:
                 out.append((norm(a.targets[0]), n.test, a.value, b.value, n))
             elif isinstance(a, ast.Return) and isinstance(b, ast.Return) and a.value is not None and b.value is not None:
                 out.append(('return', n.test, a.value, b.value, n))
+            elif isinstance(a, ast.Expr) and isinstance(b, ast.Expr) and isinstance(a.value, ast.Call) and isinstance(b.value, ast.Call) \
+                    and norm(a.value.func) == norm(b.value.func) and len(a.value.args) == len(b.value.args) and not a.value.keywords and not b.value.keywords:
+                # the same call in both arms, differing in one argument: f(A if C else B)
+                diff = [k for k, (x, y) in enumerate(zip(a.value.args, b.value.args)) if norm(x) != norm(y)]
+                if len(diff) == 1:
+                    out.append(('<expr>', n.test, a.value.args[diff[0]], b.value.args[diff[0]], n))
         elif isinstance(n, ast.IfExp):
             from .model import parent as _parent
             p = _parent(n)
@@ -735,3 +741,11 @@ def path_counts(stmts, pred) -> set:
         return running, done
     r, d = go(list(stmts))
     return r | d
+
+
+def sym_norm(t: ast.AST) -> str:
+    """text of a test with the operands of a symmetric comparison (==, !=, is, is not) in sorted order"""
+    if isinstance(t, ast.Compare) and len(t.ops) == 1 and isinstance(t.ops[0], (ast.Eq, ast.NotEq, ast.Is, ast.IsNot)):
+        a, b = sorted([norm(t.left), norm(t.comparators[0])])
+        return '%s %s %s' % (a, {ast.Eq: '==', ast.NotEq: '!=', ast.Is: 'is', ast.IsNot: 'is not'}[type(t.ops[0])], b)
+    return norm(t)
